@@ -27,9 +27,9 @@ def clean_key(searcher, rule):
     try:
         if rule.comb_class not in cdb:
             return None
-        kids = [c for c in rule.children if not c.is_empty()]
-        if any(c not in cdb for c in kids):
+        if any(c not in cdb for c in rule.children):
             return None
+        kids = [c for c in rule.children if not (rule.possibly_empty and c.is_empty())]
         return (cdb.get_label(rule.comb_class), tuple(sorted(cdb.get_label(c) for c in kids)))
     except Exception:  # noqa: BLE001
         return None
